@@ -10,11 +10,14 @@ use vkit::problem::{self, is_infeasible_status, status_name, Problem};
 use vkit::report::catch;
 use vkit::{Ctx, Rng};
 
-struct SharedBuf(Arc<Mutex<Vec<u8>>>);
+/// a stream that takes at most `1` bytes per call (0 = unlimited): short writes are legal for any `Write`
+/// (pipes, sockets, bounded writers), and the caller has to come back with the rest
+struct SharedBuf(Arc<Mutex<Vec<u8>>>, usize);
 impl Write for SharedBuf {
     fn write(&mut self, b: &[u8]) -> std::io::Result<usize> {
-        self.0.lock().unwrap().extend_from_slice(b);
-        Ok(b.len())
+        let n = if self.1 == 0 { b.len() } else { b.len().min(self.1) };
+        self.0.lock().unwrap().extend_from_slice(&b[..n]);
+        Ok(n)
     }
     fn flush(&mut self) -> std::io::Result<()> {
         Ok(())
@@ -255,7 +258,7 @@ pub fn run(ctx: &mut Ctx) {
             }
             let sb = Arc::new(Mutex::new(Vec::new()));
             let sb2 = sb.clone();
-            let _ = run_with(&p, &quiet, move |s| s.print_to_stream(Box::new(SharedBuf(sb2))));
+            let _ = run_with(&p, &quiet, move |s| s.print_to_stream(Box::new(SharedBuf(sb2, 0))));
             if !sb.lock().unwrap().is_empty() {
                 bad("verbose_off_wrote_to_stream", json!({"bytes": sb.lock().unwrap().len()}));
             }
@@ -284,7 +287,9 @@ pub fn run(ctx: &mut Ctx) {
         ctx.bump(&format!("status_{}", status_name(buf_solver.solution.status)));
         let sb = Arc::new(Mutex::new(Vec::new()));
         let sb2 = sb.clone();
-        let stream_solver = run_with(&p, &loud, move |s| s.print_to_stream(Box::new(SharedBuf(sb2))));
+        // every other case the stream accepts only a few bytes per call
+        let chunk = if case % 2 == 1 { [1usize, 7, 32, 64][(case as usize / 2) % 4] } else { 0 };
+        let stream_solver = run_with(&p, &loud, move |s| s.print_to_stream(Box::new(SharedBuf(sb2, chunk))));
         let stream_txt = String::from_utf8_lossy(&sb.lock().unwrap()).to_string();
         let mut f = tempfile_rw();
         let f2 = f.try_clone().expect("clone");
